@@ -76,7 +76,7 @@ def run(ctx):
             lines = ["new 0"]
             for k, F in enumerate(files):
                 lines += ["%s %s" % ("read" if k == 0 else "append", fpath(F, sep)), "states",
-                          "write %s" % os.path.join(bwd, "%s-o%d.p21" % (tag, k))]
+                          "writenv %s" % os.path.join(bwd, "%s-o%d.p21" % (tag, k))]
             scripts.append((tag, lines))
         res = sess.run_scripts(drv, scripts, bwd)
         segs = [scenario_events(tag, files, res.get(tag, []), bwd) for tag, files in items]
